@@ -12,6 +12,13 @@ pub fn fmt_stub(_: std::fmt::Arguments<'_>) -> String {
 pub fn msg_stub<T: ToString>(_m: T) -> crate::Error {
     crate::Error::Binread(Vec::new())
 }
+/// `impl From<io::Error> for candid::Error` is `Error::msg(format!("io error: {e}"))`; the
+/// payload is already cut. Forgetting `e` instead of dropping it avoids io::Error's drop
+/// glue, whose `Box<dyn Error>` arm CBMC resolves against every error type in the program.
+pub fn from_io_stub(e: std::io::Error) -> crate::Error {
+    std::mem::forget(e);
+    crate::Error::Binread(Vec::new())
+}
 pub fn stack_stub() -> Option<usize> {
     None
 }
@@ -54,6 +61,7 @@ macro_rules! de_harness {
         #[kani::stub(alloc::fmt::format, crate::de::verif_kani::common::fmt_stub)]
         #[kani::stub(crate::Error::msg, crate::de::verif_kani::common::msg_stub)]
         #[kani::stub(stacker::remaining_stack, crate::de::verif_kani::common::stack_stub)]
+        #[kani::stub(<crate::Error as std::convert::From<std::io::Error>>::from, crate::de::verif_kani::common::from_io_stub)]
         #[kani::stub(<::anyhow::Error as std::ops::Drop>::drop, crate::de::verif_kani::common::drop_stub)]
         #[kani::stub(std::rc::Rc::drop_slow, crate::de::verif_kani::common::rc_drop_stub)]
         #[kani::stub(crate::types::internal::find_type, crate::de::verif_kani::common::find_type_stub)]
@@ -104,6 +112,32 @@ pub fn ty(t: TypeInner) -> Type {
     }
 }
 
+// num-bigint boundary for paths where the big number's *value* is irrelevant (skipping):
+// the constructor/serialiser are replaced by trivial total functions. What candid does on
+// its side (how many bytes it consumes, what it charges) is unchanged.
+pub fn bn_from_radix_le(_d: &[u8], _radix: u32) -> Option<num_bigint::BigUint> {
+    Some(num_bigint::BigUint::default())
+}
+pub fn bn_to_bytes_le(_s: &num_bigint::BigUint) -> Vec<u8> {
+    Vec::new()
+}
+pub fn bn_to_signed_bytes_le(_s: &num_bigint::BigInt) -> Vec<u8> {
+    Vec::new()
+}
+pub fn bn_from_u64(_v: u64) -> num_bigint::BigUint {
+    num_bigint::BigUint::default()
+}
+pub fn bn_from_i64(_v: i64) -> num_bigint::BigInt {
+    num_bigint::BigInt::default()
+}
+pub fn bn_sub_assign(_a: &mut num_bigint::BigInt, _b: num_bigint::BigInt) {}
+pub fn bn_shl(_a: num_bigint::BigInt, _b: usize) -> num_bigint::BigInt {
+    num_bigint::BigInt::default()
+}
+pub fn bn_int_from_biguint(_a: num_bigint::BigUint) -> num_bigint::BigInt {
+    num_bigint::BigInt::default()
+}
+
 /// Decoder state exactly as `Deserializer::from_bytes` + `deserialize_with_type`
 /// leave it before the first value is read: empty type table, fresh memo, no
 /// fast-path flag set, cursor at 0 of the *value* bytes.
@@ -145,4 +179,48 @@ include!("/verif/kani/menu.rs");
 macro_rules! len_mode {
     (symbolic, $n:expr) => {{ let l: usize = kani::any(); kani::assume(l <= $n); l }};
     (fixed, $n:expr) => { $n };
+}
+
+/// de_harness! plus the value-irrelevant num-bigint boundary (skipped big numbers).
+macro_rules! de_harness_bn {
+    ($(#[$m:meta])* fn $name:ident() $body:block) => {
+        de_harness! {
+            #[kani::stub(num_bigint::BigUint::from_radix_le, crate::de::verif_kani::common::bn_from_radix_le)]
+            #[kani::stub(num_bigint::BigUint::to_bytes_le, crate::de::verif_kani::common::bn_to_bytes_le)]
+            #[kani::stub(num_bigint::BigInt::to_signed_bytes_le, crate::de::verif_kani::common::bn_to_signed_bytes_le)]
+            #[kani::stub(<num_bigint::BigUint as std::convert::From<u64>>::from, crate::de::verif_kani::common::bn_from_u64)]
+            #[kani::stub(<num_bigint::BigInt as std::convert::From<i64>>::from, crate::de::verif_kani::common::bn_from_i64)]
+            #[kani::stub(<num_bigint::BigInt as std::convert::From<num_bigint::BigUint>>::from, crate::de::verif_kani::common::bn_int_from_biguint)]
+            #[kani::stub(<num_bigint::BigInt as std::ops::SubAssign<num_bigint::BigInt>>::sub_assign, crate::de::verif_kani::common::bn_sub_assign)]
+            #[kani::stub(<num_bigint::BigInt as std::ops::Shl<usize>>::shl, crate::de::verif_kani::common::bn_shl)]
+            $(#[$m])*
+            fn $name() $body
+        }
+    };
+}
+
+/// Case split over the primitive menu with *pooled* (typed, prunable) types; `$s`
+/// is bound to the concrete selector so that oracles are evaluated per arm too.
+macro_rules! for_prim_pooled {
+    ($w:expr, $t:ident, $s:ident => $body:block) => {
+        match $w {
+            0 => { let $s: u8 = 0; let $t: Type = ty(TypeInner::Null); $body }
+            1 => { let $s: u8 = 1; let $t: Type = ty(TypeInner::Bool); $body }
+            2 => { let $s: u8 = 2; let $t: Type = ty(TypeInner::Nat); $body }
+            3 => { let $s: u8 = 3; let $t: Type = ty(TypeInner::Int); $body }
+            4 => { let $s: u8 = 4; let $t: Type = ty(TypeInner::Nat8); $body }
+            5 => { let $s: u8 = 5; let $t: Type = ty(TypeInner::Nat16); $body }
+            6 => { let $s: u8 = 6; let $t: Type = ty(TypeInner::Nat32); $body }
+            7 => { let $s: u8 = 7; let $t: Type = ty(TypeInner::Nat64); $body }
+            8 => { let $s: u8 = 8; let $t: Type = ty(TypeInner::Int8); $body }
+            9 => { let $s: u8 = 9; let $t: Type = ty(TypeInner::Int16); $body }
+            10 => { let $s: u8 = 10; let $t: Type = ty(TypeInner::Int32); $body }
+            11 => { let $s: u8 = 11; let $t: Type = ty(TypeInner::Int64); $body }
+            12 => { let $s: u8 = 12; let $t: Type = ty(TypeInner::Float32); $body }
+            13 => { let $s: u8 = 13; let $t: Type = ty(TypeInner::Float64); $body }
+            14 => { let $s: u8 = 14; let $t: Type = ty(TypeInner::Text); $body }
+            15 => { let $s: u8 = 15; let $t: Type = ty(TypeInner::Reserved); $body }
+            _ => { let $s: u8 = 16; let $t: Type = ty(TypeInner::Empty); $body }
+        }
+    };
 }
